@@ -169,3 +169,52 @@ func VfH_C11_cmap6or10() {
 	}
 	vfReach("end")
 }
+
+// H-C11-remap: the compatibility wrappers ProcessCmap puts around a Microsoft symbol subtable
+// (remaperSymbol, remaperPUASimp, remaperPUATrad) over a symbolic format-4 map: enumeration vs lookup.
+// Known finding: the wrappers only remap Lookup; Iter (hence the font coverage) enumerates the
+// underlying subtable, so a rune that is only reachable through the remapping is mapped but not enumerated.
+func VfH_C11_remap() {
+	wrapper := vfChoice("wrapper", 3)
+	base, total := vfMkCmap4(1+vfChoice("nseg", 2), 2)
+	var cm Cmap
+	switch wrapper {
+	case 0:
+		cm = remaperSymbol{base}
+	case 1:
+		cm = remaperPUASimp{base}
+	case 2:
+		cm = remaperPUATrad{base}
+	}
+	pairs := vfCollect(cm, total)
+	for i, p := range pairs {
+		g, ok := cm.Lookup(p.r)
+		vfAssert(ok, "Iter yields a rune for which Lookup reports no glyph")
+		vfAssert(g == p.g, "Iter and Lookup disagree on the glyph of a rune")
+		if i > 0 {
+			vfAssert(pairs[i-1].r < p.r, "Iter yields a rune twice / out of order")
+		}
+	}
+	q := vfRune("q")
+	vfAssume(0 <= q && q <= 0x10FFFF)
+	if wrapper != 0 {
+		// the Arabic PUA tables are long case lists: a window of the remapped range keeps the case split small
+		hi := rune(0x3F)
+		if vfThorough() {
+			hi = 0xFF
+		}
+		vfAssume(0x20 <= q && q <= hi)
+	}
+	gq, okq := cm.Lookup(q)
+	_, direct := base.Lookup(q)
+	found := false
+	for _, p := range pairs {
+		found = vfOr(found, vfAnd(p.r == q, p.g == gq))
+	}
+	vfCover("remapped", vfAnd(okq, !direct))
+	vfCover("direct", vfAnd(okq, direct))
+	vfAssert(vfImplies(vfAnd(okq, direct), found), "Lookup succeeds for a rune that Iter does not enumerate")
+	vfKnown("C11-remapped-runes-not-enumerated", vfAnd(okq, vfAnd(!direct, !found)))
+	vfAssert(vfImplies(vfAnd(okq, !direct), found), "Lookup succeeds for a rune that Iter does not enumerate")
+	vfReach("end")
+}
